@@ -78,12 +78,13 @@ structure RpmsArgs where
   srpm : Option Str := none
 deriving Repr
 
-/-- `Rpms._check_nevra`: canonical text and parsed parts -/
-def checkNevra (nevra : Str) : Except Err (Str × Nvra) :=
-  if !nevra.contains ':' then .error .valueError
-  else match parseNvra nevra with
-    | .error _ => .error .valueError
-    | .ok d => .ok (d.canonical, d)
+/- `Rpms._check_nevra` is `PM.checkNevra` (Model/Nvra.lean, shared with C13): canonical text and parsed parts. -/
+
+/-- `nevra_dict["arch"] in (...)` for a group that may be `None` -/
+def archIn (l : List Str) (arch : Option Str) : Bool :=
+  match arch with
+  | some a => l.contains a
+  | none => false
 
 /-- `if arch in ["src", "nosrc"]`: the literal list in the source, regenerated on every run -/
 def srcArches : List Str := Gen.RPMS_ADD_SOURCE_ARCHES
@@ -111,7 +112,7 @@ def rpmsCheck (a : RpmsArgs) : Except Err RpmsPlan :=
     | .ok (nevra, d) =>
       if a.category == lit "source" && a.srpm.isSome then .error .valueError
       else if a.category != lit "source" && a.srpm.isNone then .error .valueError
-      else if (a.category == lit "source") != (nevraSrcArches.contains d.arch) then .error .valueError
+      else if (a.category == lit "source") != (archIn nevraSrcArches d.arch) then .error .valueError
       else
         let sigkey := a.sigkey.map Str.lowerAscii
         let srpm : Except Err Str :=
@@ -155,7 +156,7 @@ def parseUid (uid : PyVal) : Except Err UidParts :=
     match pyMatch Gen.re_modules_Modules_parse_uid_0 s with
     | none => .error .valueError
     | some caps =>
-      let g (n : String) : Option Str := caps.get (groupNo Gen.re_modules_Modules_parse_uid_0_groups n)
+      let g (n : String) : Option Str := namedGroup Gen.re_modules_Modules_parse_uid_0_groups caps n
       .ok { name := (g "module_name").getD [], stream := (g "stream").getD [],
             version := (g "version").getD [], context := (g "context").getD [] }
   | _ => .error .valueError
